@@ -26,6 +26,7 @@ Rendering(kind) ==
       [] kind = "empty"  -> <<>>                           \* Block("")       IsNil() = true
       [] kind = "idnil"  -> <<>>                           \* snippet.ID(nil) IsNil() = true
       [] kind = "nil"    -> <<>>                           \* a nil Snippet
+      [] kind = "self"   -> <<84>>                         \* ID("self.io/me.T"): a type of the file's own package - "T" there, qualified elsewhere
       \* Sprintf arguments
       [] kind = "int7"   -> <<55>>                         \* %v of 7
       [] kind = "str"    -> <<34, 115, 34>>                \* %v of "s"
@@ -41,7 +42,7 @@ EnvPairs == << <<<<97>>, "lit">>,            \* a
                <<<<97, 97>>, "snips">>,      \* aa
                <<<<97, 98>>, "nil">>,        \* ab
                <<<<98, 97>>, "idnil">>,      \* ba
-               <<<<97, 55>>, "lit">> >>      \* a7
+               <<<<97, 55>>, "self">> >>     \* a7
 
 EnvOf(pairs) == [n \in {pairs[i][1] : i \in 1..Len(pairs)} |->
                     pairs[CHOOSE i \in 1..Len(pairs) : pairs[i][1] = n][2]]
